@@ -470,6 +470,12 @@ def rule_a12(ctx):
     ctx.ob('A12.origin', 'codec.ber.decoder', 'decoder holds tell() results in locals', holds >= 5, '%d sites' % holds, nontrivial=False)
     rule_wrapper_read(ctx)
 
+def _preorder_nodes(node):
+    yield node
+    for ch in ast.iter_child_nodes(node):
+        yield from _preorder_nodes(ch)
+
+
 def rule_wrapper_read(ctx):
     """A12.cache: CachingStreamWrapper.read = cached part + raw part, the raw part remembered; peek = read + seek back;
     the element mark is set at the start of every element."""
@@ -503,9 +509,33 @@ def rule_wrapper_read(ctx):
            'returns %s: the octets already taken from the cache must be part of every answer (the cache position has moved past '
            'them), also when the raw stream has nothing yet' % rets if not ok else '')
     pk = w.method('peek')
-    src = norm(pk.node)
-    ctx.ob('A12.cache', pk, 'peek = read + relative seek back by what was read',
-           'self.read(n)' in src and 'self._cache.seek(-len(result), os.SEEK_CUR)' in src, '')
+    # R = self.read(n), then the cache position put back: relative, by len(R) (skippable when R is empty or None), or absolute,
+    # to the position `self._cache.tell()` gave BEFORE the read (everything read() hands out has gone through the cache)
+    seq = [x for x in _preorder_nodes(pk.node) if isinstance(x, (ast.Assign, ast.Call))]
+    reads = [a for a in seq if isinstance(a, ast.Assign) and isinstance(a.targets[0], ast.Name) and isinstance(a.value, ast.Call) and
+             norm(a.value.func) == 'self.read' and [norm(x) for x in a.value.args] == [pk.params()[1]] and not a.value.keywords]
+    good, why = False, 'no `result = self.read(n)`'
+    if len(reads) == 1:
+        res = reads[0].targets[0].id
+        ri = seq.index(reads[0])
+        tells = dict((a.targets[0].id, seq.index(a)) for a in seq if isinstance(a, ast.Assign) and isinstance(a.targets[0], ast.Name)
+                     and norm(a.value) == 'self._cache.tell()')
+        seeks = [c_ for c_ in seq if isinstance(c_, ast.Call) and norm(c_.func) == 'self._cache.seek']
+        why = 'no seek back on the cache after the read'
+        for c_ in seeks:
+            if seq.index(c_) < ri or c_.keywords:
+                continue
+            a_ = [norm(x) for x in c_.args]
+            if a_ == ['-len(%s)' % res, 'os.SEEK_CUR'] or a_ == ['-len(%s)' % res, '1']:
+                good = True
+            elif a_ and a_[0] in tells and tells[a_[0]] < ri and a_[1:] in ([], ['os.SEEK_SET'], ['0']):
+                good = True
+            else:
+                why = '`%s` does not undo the read' % norm(c_)
+        rets_pk = [norm(r_.value) for r_ in walk_own(pk.node) if isinstance(r_, ast.Return) and r_.value is not None]
+        if good and rets_pk != [res]:
+            good, why = False, 'returns %s, not what was read' % rets_pk
+    ctx.ob('A12.cache', pk, 'peek = read + seek back by what was read', good, why if not good else '')
     # (an empty or None result moves nothing: the seek may be skipped for it)
     # the element mark is set at the start of every element
     f = ctx.func('codec.ber.decoder.SingleItemDecoder.__call__')
